@@ -196,7 +196,7 @@ def psi_T(psi, what):
     return T
 
 
-def check(psi, sh, what, signfree=False, canonical=True, check_norm=True):
+def check(psi, sh, what, signfree=False, canonical=True, check_norm=True, check_tnorm=True):
     """The real MPS denotes the shadow state; `what` prefixes the violation key."""
     bc = sh.bc
     tol = TOL[bc]
@@ -220,7 +220,7 @@ def check(psi, sh, what, signfree=False, canonical=True, check_norm=True):
             sh.T = -sh.T
     if diff > tol:
         raise Viol(what + ':state', 'state of the result differs from the dense reference by %.3g' % diff)
-    if abs(nrm - 1) > tol:
+    if check_tnorm and abs(nrm - 1) > tol:
         raise Viol(what + ':tensor-norm', 'tensors of the result are not normalised (%.12g)' % nrm)
     if check_norm and abs(psi.norm - sh.norm) > tol * max(1.0, abs(sh.norm)):
         raise Viol(what + ':norm', 'psi.norm = %.12g, expected %.12g' % (psi.norm, sh.norm))
@@ -687,10 +687,13 @@ def step(psi, sh, act, ctx):
             raise Viol(what + ':total-charge', 'get_total_charge() = %r after gauging to %r' % (psi2.get_total_charge(), want))
     elif kind != 'copy':
         raise ValueError(act)
-    if bc == 'infinite' and canonical and any(a < b for a, b in zip(psi2.chi, psi.chi)):
-        check_norm = False   # canonical_form_infinite projected to a smaller chi: its norm bookkeeping is not documented
     sh2._cache = None
     sh2.canon = sh.canon if canonical is None else canonical
+    if bc == 'infinite' and canonical and any(a < b for a, b in zip(psi2.chi, psi.chi)):
+        # canonical_form_infinite1 projected to a smaller chi (rank-deficient input, C07): only the state is checked
+        # (norm bookkeeping and exactness of the canonical form are not), and the result is not explored further
+        check(psi2, sh2, what, canonical=False, check_norm=False, check_tnorm=False)
+        return None, None, 'projected'
     check(psi2, sh2, what, signfree=signfree, canonical=sh2.canon, check_norm=check_norm)
     if not check_norm:
         sh2.norm = psi2.norm
@@ -821,7 +824,7 @@ def alphabet(psi, sh, ctx, full):
     acts += [('group', n) for n in ((2, 3) if full else (2,)) if n <= L]
     if not sh.plain and all(b != 1 for b in sh.blocks):
         acts += [('split', None), ('split', 2)]
-    if psi._B[0].get_leg('vL').qconj == 1:   # documented for extra legs "with qconj=+1"
+    if all(B.get_leg('vL').qconj == 1 for B in psi._B):   # documented for extra legs "with qconj=+1"
         acts += [('chi', 0)] + ([('chi', 1), ('chi', 2)] if full else [])
     if bc != 'segment':
         acts += [('compress', 'svd', None), ('compress', 'svd', 2)]
